@@ -1,6 +1,9 @@
 pub mod c01;
 pub mod scenes;
+pub mod c04;
 pub mod c07;
+pub mod c08;
+pub mod c09;
 pub mod c10;
 pub mod c11;
 pub mod c14;
@@ -12,7 +15,10 @@ pub fn dispatch(ctx: &Ctx) -> Option<Outcome> {
     match ctx.prop.as_str() {
         "C01" => Some(c01::run(ctx)),
         "C02" | "C03" | "C05" | "C06" | "C18" => Some(scenes::run(ctx)),
+        "C04" => Some(c04::run(ctx)),
         "C07" => Some(c07::run(ctx)),
+        "C08" => Some(c08::run(ctx)),
+        "C09" => Some(c09::run(ctx)),
         "C10" => Some(c10::run(ctx)),
         "C11" => Some(c11::run(ctx)),
         "C14" => Some(c14::run(ctx)),
